@@ -236,9 +236,9 @@ mod verif_in_ctx_pkt {
     //@ h name=step_pkt_puback_none props=C05,C10,C15,C17 tier=off cap=small to=1200 mem=40
     //@ h name=step_pkt_puback_cancelled props=C10,C15,C17 tier=quick cap=small to=1200
     //@ h name=step_pkt_pubrec_w2 props=C05,C06,C10,C17 tier=quick cap=small to=1200
-    //@ h name=step_pkt_pubrec_w1_fail props=C05,C06,C10,C17 tier=quick cap=small to=1200
-    //@ h name=step_pkt_pubrec_cancelled_fail props=C10,C15,C17 tier=quick cap=small to=1200
-    //@ h name=step_pkt_pubcomp_w2 props=C05,C06,C10,C17 tier=quick cap=small to=1200
+    //@ h name=step_pkt_pubrec_w1_fail props=C05,C06,C10,C17 tier=thorough cap=small to=1200
+    //@ h name=step_pkt_pubrec_cancelled_fail props=C10,C15,C17 tier=thorough cap=small to=1200
+    //@ h name=step_pkt_pubcomp_w2 props=C05,C06,C10,C17 tier=thorough cap=small to=1200
     //@ h name=step_pkt_pubcomp_w1_fail props=C05,C06,C10,C17 tier=thorough cap=small to=1200
     //@ h name=step_pkt_pubcomp_cancelled props=C10,C15,C17 tier=thorough cap=small to=1200
     //@ h name=step_pkt_suback_w2 props=C05,C10 tier=quick cap=small to=1200
@@ -251,7 +251,7 @@ mod verif_in_ctx_pkt {
     //@ bounds: Receive Maximum 1..=65535 and quota 0..=R symbolic, Maximum Packet Size / expiry interval arbitrary; the acknowledgement's packet identifier 0x0102 and a second outstanding operation of the same kind with identifier 0x0201 (concrete: queue positions must be constants; identifier agreement for all values is action_id_agree); waiter queue of 1-2 entries and retransmit queue of 1-2 entries in the positions named by the harness (_w1 addressed waiter first, _w2 second, _none absent, _cancelled caller gone); reason code fixed per harness (0x00, or 0x80/0x92 in the _fail variants); acknowledgements without reason string / user properties (their decoding is C02)
     //@ funcs: Context::handle_packet, utils::rx_action_id, utils::linear_search_by_key
     //@ h name=step_pkt_puback_w2_r1 props=C05,C10,C17 tier=quick cap=small to=1200
-    //@ h name=step_pkt_pubrec_w1_r2 props=C05,C10,C17 tier=quick cap=small to=1200
+    //@ h name=step_pkt_pubrec_w1_r2 props=C05,C10,C17 tier=thorough cap=small to=1200
     //@ h name=step_pkt_pubcomp_w2_r1 props=C05,C10,C17 tier=thorough cap=small to=1200
     //@ h name=step_pkt_puback_pruned props=C10,C15,C17 tier=quick cap=small to=1200 mem=30
     //@ claim: as step_pkt_*, with the waiter queue and the retransmit queue NOT aligned (the addressed waiter second in line while its stored packet is first, or the other way round; _pruned: no waiter left for the acknowledgement but its stored packet still queued): the position in one queue says nothing about the other
